@@ -3,7 +3,8 @@
 Search-space lattice (bounds of any sign/scale, precisions that do or do not divide the range; 1-3 parameters quick, up to 6
 thorough) x all nine samplers with option variants x on-grid histories (sizes B, B+1, 3B; distinct / tied / all-equal / one
 huge loss) x seeds, THREE successive sample() calls on the same object with the history extended by each returned batch.
-Oracle: shape (batch_size, dims); every coordinate is an exact element of that parameter's grid and lies within the declared
+Some sequences then continue with two calls on a SECOND space of the same dimension (state carried between two uses of one
+object), and some histories are on-grid INTEGER-typed arrays. Oracle: shape (batch_size, dims); every coordinate is an exact element of that parameter's grid and lies within the declared
 bounds up to the 1e-7 end-point tolerance (checked against the declared bounds, not only against the grid object).
 """
 from __future__ import annotations
@@ -35,12 +36,26 @@ def run_sequence(case):
     bs = case["bs"]
     sampler = L.make_sampler(case["sampler"], case["opts"], bs, case["seed"])
     pts, losses = L.history(space, case["n"], case["pattern"], shift=case["seed"])
+    if case.get("hist_dtype") == "int":
+        # an on-grid history typed by hand as an INTEGER array: rows drawn from the grid elements that are whole numbers
+        ints = [g[g == np.round(g)] for g in space.param_grid]
+        if any(len(g) < 2 for g in ints):
+            return [], {"delivered": 0, "raised": None, "regular": False}
+        pts = np.array([[int(g[(r * (c + 1) + r // len(g)) % len(g)]) for c, g in enumerate(ints)] for r in range(case["n"])], dtype=np.int64)
     regular = L.is_regular(pts, losses)
     v = []
     info = {"delivered": 0, "raised": None, "regular": regular}
     old = signal.signal(signal.SIGALRM, _alarm)
     try:
-        for call in range(case.get("calls", 3)):
+        ncalls = case.get("calls", 3)
+        for call in range(ncalls + (2 if case.get("space2") else 0)):
+            if call == ncalls:
+                # the SAME sampler object is now used on a second search space with as many parameters (no reset):
+                # its proposals must belong to the space of the current call
+                space = L.make_space(case["space2"])
+                lo = np.array([L.SPECS[i][0] for i in case["space2"]])
+                up = np.array([L.SPECS[i][1] for i in case["space2"]])
+                pts, _ = L.history(space, len(pts), "distinct", shift=case["seed"])
             signal.alarm(120)
             try:
                 with quiet():
@@ -67,7 +82,7 @@ def run_sequence(case):
                     bad = float(out[~on, c][0])
                     near = float(g[np.argmin(np.abs(g - bad))])
                     kind = "clipped-to-bound" if bad in (lo[c], up[c]) else ("unit-cube-not-mapped" if 0 <= bad <= 1 and not (lo[c] <= bad <= up[c]) else "off-grid")
-                    v.append((f"off-grid:{kind}", f"call {call}: coordinate {c} value {bad!r} is not an element of the grid (nearest element {near!r}; bounds [{lo[c]}, {up[c]}], precision {L.SPECS[case['space'][c]][2]})"))
+                    v.append((f"off-grid:{kind}", f"call {call}: coordinate {c} value {bad!r} is not an element of the grid (nearest element {near!r}; bounds [{lo[c]}, {up[c]}], precision {float(space.parameters_precision[c])!r}){' [second space ' + str([L.SPECS[i] for i in case['space2']]) + ']' if call >= ncalls else ''})"))
                     break
                 if (out[:, c] < lo[c] - 1e-7).any() or (out[:, c] > up[c] + 1e-7).any():
                     bad = float(out[(out[:, c] < lo[c] - 1e-7) | (out[:, c] > up[c] + 1e-7), c][0])
@@ -77,7 +92,7 @@ def run_sequence(case):
                 break
             # extend the history with the returned batch and a fixed loss function of the row index
             k = np.arange(len(pts), len(pts) + bs, dtype=float)
-            pts = np.vstack([pts, out])
+            pts = np.vstack([pts, out]) if case.get("hist_dtype") != "int" or not np.all(out == np.round(out)) else np.vstack([pts, out.astype(np.int64)])
             losses = np.concatenate([losses, 1.0 + ((k * 5) % 11) * 0.21])
     finally:
         signal.signal(signal.SIGALRM, old)
@@ -153,12 +168,28 @@ def main(ctx):
             cases.append({"space": sp, "sampler": name, "opts": opts, "bs": 9, "seed": S, "n": 40, "pattern": "ties"})
     for name, opts in L.COSTLY[2:]:
         cases.append({"space": [0, 3, 4, 5, 8, 11, 1, 2], "sampler": name, "opts": opts, "bs": 6, "seed": S, "n": 30, "pattern": "distinct"})
+    # state carried between two uses of one object: after the three calls, two more calls on a SECOND space of the same dimension
+    for c in list(cases):
+        if c["sampler"] in ("BestBatch", "ParticleSwarm", "Halton", "RSequence", "RandomUniform") and c["pattern"] == "distinct" and c["n"] == 3 * B and c["bs"] <= 3:
+            cases.append(dict(c, space2=[(i + 5) % len(L.SPECS) for i in c["space"]]))
+    for name, opts in L.COSTLY:
+        for sp in ([1], [3, 4]):
+            cases.append({"space": sp, "sampler": name, "opts": opts, "bs": 2, "seed": S, "n": 3 * B, "pattern": "distinct", "calls": 2, "space2": [(i + 5) % len(L.SPECS) for i in sp]})
+    # on-grid histories typed as integer arrays (fractional steps, whole-number elements)
+    for sp in ([12], [5], [8], [9], [0], [2], [12, 12], [5, 8], [9, 12], [8, 12, 5], [2, 5]):
+        for name, opts in L.CHEAP:
+            for n in (B, 3 * B):
+                cases.append({"space": sp, "sampler": name, "opts": opts, "bs": B if name != "ParticleSwarm" else 2, "seed": S, "n": n, "pattern": "distinct", "hist_dtype": "int"})
+        for name, opts in L.COSTLY:
+            if len(sp) > 1:
+                cases.append({"space": sp, "sampler": name, "opts": opts, "bs": 2, "seed": S, "n": 3 * B, "pattern": "distinct", "hist_dtype": "int", "calls": 2})
     costly = [c for c in cases if c["sampler"] in ("CORS", "GaussianProcess", "XGBoost", "RandomForest")]
     cheap = [c for c in cases if c not in costly]
     cells = [{"cases": costly[i::64]} for i in range(64)] + [{"cases": cheap[i::48]} for i in range(48)]
     cells = [c for c in cells if c["cases"]]
     ctx.bounds = {"spaces": len(spaces), "specs": L.SPECS, "cheap_sampler_variants": len(L.CHEAP), "costly_sampler_variants": len(L.COSTLY), "costly_spaces": len(costly_spaces),
-                  "history_sizes": [B, B + 1, 3 * B], "loss_patterns": ["distinct", "ties", "equal", "huge"], "seeds": [S, S + 1], "successive_calls": 3, "sequences": len(cases)}
+                  "history_sizes": [B, B + 1, 3 * B], "loss_patterns": ["distinct", "ties", "equal", "huge"], "seeds": [S, S + 1], "successive_calls": 3, "sequences": len(cases),
+                  "second_space_sequences": sum(1 for c in cases if c.get("space2")), "integer_typed_history_sequences": sum(1 for c in cases if c.get("hist_dtype"))}
     ctx.rule = "one evaluation = one sampler object driven through three successive sample() calls; non-trivial = the space has a parameter whose range is not a multiple of its precision"
     ctx.assumptions = ["exceptions on degenerate histories (repeated rows or all-equal losses) are recorded per sampler and not judged", "a 30 s alarm turns a non-terminating sampler call into a reported cap"]
     ctx.pmap("vf.checks.c03:run_cell", cells)
